@@ -22,8 +22,10 @@ COQ_SRC = COQ
 if os.path.realpath(REPO) != "/repo":
     # a tree other than /repo (a scratch worktree carrying a candidate change) is judged in its own copy of the Coq
     # sources and its own build directory: the regenerated tables of two trees never meet, whatever runs concurrently
-    BUILD = os.path.join(VERIF, "build", "alt")
+    BUILD = os.path.join(VERIF, "build", "alt-" + hashlib.sha1(os.path.realpath(REPO).encode()).hexdigest()[:10])
     COQ = os.path.join(BUILD, "coq")
+# replays of other-tree runs live with their build, so that they never overwrite a replay of /repo
+REPLAYS = os.path.join(VERIF, "replays") if COQ == COQ_SRC else os.path.join(BUILD, "replays")
 SHARD_BYTES = 140_000
 NPROC = int(os.environ.get("VERIF_NPROC", min(16, os.cpu_count() or 4)))
 
@@ -59,6 +61,14 @@ def sync_sources():
     """other-tree runs: refresh the private copy of the .v sources (mtimes kept, so make rebuilds only what changed)"""
     if COQ == COQ_SRC:
         return
+    if not os.path.isdir(COQ):
+        # first run for this tree: start from the main build's compiled files (copied under the main build lock), so
+        # only what depends on a table that really differs is recompiled
+        os.makedirs(BUILD, exist_ok=True)
+        main_lock = os.path.join(VERIF, "build", ".lock")
+        with open(main_lock, "w") as lf:
+            fcntl.flock(lf, fcntl.LOCK_EX)
+            subprocess.run(["cp", "-a", COQ_SRC, COQ], check=True)
     os.makedirs(COQ, exist_ok=True)
     subprocess.run(["rsync", "-a", "--exclude=Generated/Tables.v", "--include=*/", "--include=*.v", "--include=_CoqProject",
                     "--exclude=*", COQ_SRC + "/", COQ + "/"], check=True)
